@@ -66,6 +66,8 @@ struct Ctl {
     script: Vec<SeamScript>,
     /// calls without a script entry get the canonical (sorted) order instead of the incoming one
     canonical: bool,
+    /// seams do nothing at all (not even logging) until a `seam_reset*` call switches them on
+    active: bool,
     state_machine: Option<bool>,
 }
 
@@ -128,6 +130,7 @@ pub fn seam_reset_with(script: Vec<SeamScript>, canonical: bool) {
         c.seam_log.clear();
         c.script = script;
         c.canonical = canonical;
+        c.active = true;
     });
 }
 
@@ -136,8 +139,16 @@ pub fn seam_log() -> Vec<SeamCall> {
     CTL.with(|c| c.borrow().seam_log.clone())
 }
 
+/// Switch the seams off again (the default): `permute` returns immediately.
+pub fn seam_off() {
+    CTL.with(|c| c.borrow_mut().active = false);
+}
+
 pub(crate) fn permute<T: std::fmt::Debug>(site: &'static str, v: &mut [T]) {
     use std::hash::{Hash, Hasher};
+    if !CTL.with(|c| c.borrow().active) {
+        return;
+    }
     let keys: Vec<String> = v.iter().map(|x| format!("{x:?}")).collect();
     let mut canon: Vec<usize> = (0..v.len()).collect();
     canon.sort_by(|a, b| keys[*a].cmp(&keys[*b]));
